@@ -4,10 +4,13 @@ C17 — property theorems (the obligations).  `Rep N k ws f` (Lemmas.lean): the 
 `< N` and has every padding bit zero.  Each theorem says: on a represented state and arguments that
 satisfy the documented precondition, the member returns `.ok` (no out-of-range word access, no
 over-wide shift, no failed contract), re-establishes `Rep` (padding included) and computes what
-`std::bitset` specifies.  All of them hold for every `N ≥ 1` and every `k` (word width `2^k`).
+`std::bitset` specifies.  All of them hold for every `N` — `bitset<0>` (no storage word) included —
+and every `k` (word width `2^k`); a character is its code unit value, so the string members are
+proved for every `CharT`.
 The proofs (and the loop lemmas between them) are in Members.lean; every statement is restated here.
 -/
 import TetlProofs.C17.Members
+import TetlProofs.C17.Popcount
 namespace Tetl.C17.Props
 open Tetl Tetl.C17 Tetl.C17.Members
 
@@ -82,19 +85,19 @@ theorem resetAll_rep {N k : Nat} {ws : Words k} {f : Spec.Bits} (h : Rep N k ws 
   Members.resetAll_rep h
 
 /-- `set()`: the padding bits of the last word stay zero -/
-theorem setAll_rep {N k : Nat} {ws : Words k} {f : Spec.Bits} (hN : 0 < N) (h : Rep N k ws f) :
+theorem setAll_rep {N k : Nat} {ws : Words k} {f : Spec.Bits} (h : Rep N k ws f) :
     ∃ ws', setAll N ws = .ok ws' ∧ Rep N k ws' (Spec.setAll f) :=
-  Members.setAll_rep hN h
+  Members.setAll_rep h
 
 /-- `flip()`: the padding bits of the last word are masked off again -/
-theorem flipAll_rep {N k : Nat} {ws : Words k} {f : Spec.Bits} (hN : 0 < N) (h : Rep N k ws f) :
+theorem flipAll_rep {N k : Nat} {ws : Words k} {f : Spec.Bits} (h : Rep N k ws f) :
     ∃ ws', flipAll N ws = .ok ws' ∧ Rep N k ws' (Spec.flipAll f) :=
-  Members.flipAll_rep hN h
+  Members.flipAll_rep h
 
 /-- `operator~` -/
-theorem not_rep {N k : Nat} {ws : Words k} {f : Spec.Bits} (hN : 0 < N) (h : Rep N k ws f) :
+theorem not_rep {N k : Nat} {ws : Words k} {f : Spec.Bits} (h : Rep N k ws f) :
     ∃ ws', C17.not N ws = .ok ws' ∧ Rep N k ws' (Spec.flipAll f) :=
-  Members.not_rep hN h
+  Members.not_rep h
 
 /-- `operator&=` (and `operator&`) -/
 theorem andAssign_rep {N k : Nat} {a b : Words k} {fa fb : Spec.Bits} (ha : Rep N k a fa) (hb : Rep N k b fb) :
@@ -129,14 +132,21 @@ theorem eq_eq {N k : Nat} {a b : Words k} {fa fb : Spec.Bits} (ha : Rep N k a fa
     eq a b = Spec.eq N fa fb :=
   Members.eq_eq ha hb
 
+/-- `etl::popcount` as code: the portable loop `detail::popcount_fallback` (`for (; val != 0; val &= val - 1) c++`,
+    property C14's model `Tetl.C14.popLoop`), run on a storage word, returns the number of one bits that the
+    C17 model's `popcount` stands for.  (The run-time path calls `__builtin_popcount*`, which is trusted.) -/
+theorem popcount_code {k : Nat} (word : Word k) :
+    C14.popcountFallback (2 ^ k) word.toNat = .ok (popcount word) :=
+  popcountFallback_eq word
+
 /-- `count()` -/
 theorem count_eq' {N k : Nat} {ws : Words k} {f : Spec.Bits} (h : Rep N k ws f) : count ws = Spec.count N f :=
   Members.count_eq' h
 
 /-- `all()` -/
-theorem all_eq {N k : Nat} {ws : Words k} {f : Spec.Bits} (hN : 0 < N) (h : Rep N k ws f) :
+theorem all_eq {N k : Nat} {ws : Words k} {f : Spec.Bits} (h : Rep N k ws f) :
     all N ws = .ok (Spec.all N f) :=
-  Members.all_eq hN h
+  Members.all_eq h
 
 /-- `bitset(string_view str, pos, n, zero, one)`; preconditions: `pos <= str.size()` (std throws
     `out_of_range`) and every used character is `zero` or `one` (std throws `invalid_argument`) -/
@@ -152,39 +162,70 @@ theorem fromCstr_rep (N k : Nat) (buf : List Nat) (n zeroCh oneCh : Nat) (hn : n
     ∃ ws', fromCstr N k buf n zeroCh oneCh = .ok ws' ∧ Rep N k ws' (Spec.ofString N buf 0 n zeroCh) :=
   Members.fromCstr_rep N k buf n zeroCh oneCh hn hvalid
 
+/-- `set(pos)` (and `unchecked_set(pos)`): the value defaults to `true` -/
+theorem setD_rep {N k : Nat} {ws : Words k} {f : Spec.Bits} (h : Rep N k ws f) (pos : Nat) (hp : pos < N) :
+    ∃ ws', setD N ws pos = .ok ws' ∧ Rep N k ws' (Spec.set1 f pos true) :=
+  Members.setD_rep h pos hp
+
+/-- `bitset(str [, pos [, n [, zero [, one]]]])` with trailing arguments defaulted (`none` = not passed):
+    tetl's defaults `0`, `npos`, `CharT('0')`, `CharT('1')` give what `std::bitset` specifies for its own
+    defaults; same preconditions as `fromString_rep`, on the effective arguments -/
+theorem fromStringD_rep (N k : Nat) (str : List Nat) (pos n zeroCh oneCh : Option Nat)
+    (hpos : arg pos 0 ≤ str.length)
+    (hvalid : (usedChars N str (arg pos 0) (arg n NPOS)).all (fun c => c == arg zeroCh CH0 || c == arg oneCh CH1) = true) :
+    ∃ ws', fromStringD N k str pos n zeroCh oneCh = .ok ws' ∧
+      Rep N k ws' (Spec.ofString N str (arg pos 0) (arg n Spec.npos) (arg zeroCh Spec.ch0)) :=
+  Members.fromStringD_rep N k str pos n zeroCh oneCh hpos hvalid
+
+/-- `bitset(cstr [, n [, zero [, one]]])` with trailing arguments defaulted -/
+theorem fromCstrD_rep (N k : Nat) (buf : List Nat) (n zeroCh oneCh : Option Nat)
+    (hn : arg n NPOS = NPOS ∨ arg n NPOS ≤ buf.length)
+    (hvalid : (usedChars N buf 0 (arg n NPOS)).all (fun c => c == arg zeroCh CH0 || c == arg oneCh CH1) = true) :
+    ∃ ws', fromCstrD N k buf n zeroCh oneCh = .ok ws' ∧
+      Rep N k ws' (Spec.ofString N buf 0 (arg n Spec.npos) (arg zeroCh Spec.ch0)) :=
+  Members.fromCstrD_rep N k buf n zeroCh oneCh hn hvalid
+
+/-- non-vacuity: `bitset<9>("101")` and `bitset<9>("x1x", 3, 'x')` satisfy the hypotheses -/
+example : (arg Option.none 0 ≤ [49, 48, 49].length ∧
+    (usedChars 9 [49, 48, 49] (arg Option.none 0) (arg Option.none NPOS)).all
+      (fun c => c == arg Option.none CH0 || c == arg Option.none CH1) = true) ∧
+    ((arg (some 3) NPOS = NPOS ∨ arg (some 3) NPOS ≤ [120, 49, 120].length) ∧
+    (usedChars 9 [120, 49, 120] 0 (arg (some 3) NPOS)).all
+      (fun c => c == arg (some 120) CH0 || c == arg Option.none CH1) = true) := by decide
+
 /-- one valid operation: never an error, every object still represented (padding included), and
     the abstract state moved as `std::bitset` specifies -/
-theorem step_rep {N k : Nat} (hN : 0 < N) {st : Store k} {sp : Spec.Store} (h : StoreRep N k st sp) (op : Op)
+theorem step_rep {N k : Nat} {st : Store k} {sp : Spec.Store} (h : StoreRep N k st sp) (op : Op)
     (hv : Op.valid N op = true) :
     ∃ st', step N st op = .ok st' ∧ StoreRep N k st' (Spec.step N sp op) :=
-  Members.step_rep hN h op hv
+  Members.step_rep h op hv
 
-/-- **Main theorem.** For every width `N ≥ 1`, every word size `2^k` and every history of valid
+/-- **Main theorem.** For every width `N` (0 included), every word size `2^k` and every history of valid
     operations, of any length, starting from any represented store: the model never returns an error
     and every object of the final store represents the corresponding object of the `std::bitset`
     specification run on the same history. -/
-theorem run_refines {N k : Nat} (hN : 0 < N) : ∀ (ops : List Op) {st : Store k} {sp : Spec.Store},
+theorem run_refines {N k : Nat} : ∀ (ops : List Op) {st : Store k} {sp : Spec.Store},
     StoreRep N k st sp → (∀ op, op ∈ ops → Op.valid N op = true) →
     ∃ st', run N st ops = .ok st' ∧ StoreRep N k st' (Spec.run N sp ops) :=
-  Members.run_refines hN
+  Members.run_refines
 
 /-- histories from default-constructed objects -/
-theorem run_refines_init {N k : Nat} (hN : 0 < N) (ops : List Op) (hv : ∀ op, op ∈ ops → Op.valid N op = true) :
+theorem run_refines_init {N k : Nat} (ops : List Op) (hv : ∀ op, op ∈ ops → Op.valid N op = true) :
     ∃ st', run N (Store.init N k) ops = .ok st' ∧ StoreRep N k st' (Spec.run N Spec.Store.init ops) :=
-  Members.run_refines_init hN ops hv
+  Members.run_refines_init ops hv
 
 /-- **Padding invariant over histories.** After any valid history the high `padding` bits of the last
     storage word of every object are zero (and the array has exactly `num_words` words). -/
-theorem padding_inv_history {N k : Nat} (hN : 0 < N) (ops : List Op)
+theorem padding_inv_history {N k : Nat} (ops : List Op)
     (hv : ∀ op, op ∈ ops → Op.valid N op = true) :
     ∃ st', run N (Store.init N k) ops = .ok st' ∧ ∀ o, (st' o).length = numWords N k ∧
       ∀ (hl : numWords N k - 1 < (st' o).length) (j : Nat), 2 ^ k - padding N k ≤ j → j < 2 ^ k →
         (st' o)[numWords N k - 1].getLsbD j = false :=
-  Members.padding_inv_history hN ops hv
+  Members.padding_inv_history ops hv
 
 /-- **Observers after a history** equal those of the specification: `test`/`operator[]`, `count`,
     `all`, `any`, `none`, `==`. -/
-theorem run_observers {N k : Nat} (hN : 0 < N) (ops : List Op) (hv : ∀ op, op ∈ ops → Op.valid N op = true) :
+theorem run_observers {N k : Nat} (ops : List Op) (hv : ∀ op, op ∈ ops → Op.valid N op = true) :
     ∃ st', run N (Store.init N k) ops = .ok st' ∧ ∀ o,
       let f := Spec.run N Spec.Store.init ops o
       (∀ pos, pos < N → test N (st' o) pos = .ok (Spec.test f pos) ∧ getConst N (st' o) pos = .ok (Spec.test f pos)
@@ -192,30 +233,60 @@ theorem run_observers {N k : Nat} (hN : 0 < N) (ops : List Op) (hv : ∀ op, op 
       count (st' o) = Spec.count N f ∧ all N (st' o) = .ok (Spec.all N f) ∧ any (st' o) = Spec.any N f ∧
       none (st' o) = Spec.none N f ∧
       ∀ o2, eq (st' o) (st' o2) = Spec.eq N f (Spec.run N Spec.Store.init ops o2) :=
-  Members.run_observers hN ops hv
+  Members.run_observers ops hv
 
-/-- `to_ulong()` / `to_ullong()` for `Bits <= 64` (the only widths for which the members exist):
-    the value is Σ 2^i over the set bits.  Partial: the hypothesis `N ≤ 64` is exactly the class of
-    the known finding F-C17-to-ullong-wide-absent. -/
-theorem toUnsigned_partial {N k : Nat} {ws : Words k} {f : Spec.Bits} (h : Rep N k ws f) (h64 : N ≤ 64) :
-    toUnsigned N ws = some (.ok (Spec.toNat N f)) :=
-  Members.toUnsigned_partial h h64
+/-- **`to_ulong()` / `to_ullong()`, every width** (64-bit result types).  When the value of the bitset
+    fits in 64 bits — exactly when `std::bitset` does not throw `overflow_error` — the member returns it:
+    Σ 2^i over the set bits.  (Replaces the former `toUnsigned_partial`, whose hypothesis `N ≤ 64` was
+    the class of the finding F-C17-to-ullong-wide-absent, now fixed; `toUnsigned_narrow` below is its
+    old statement.) -/
+theorem toUnsigned_eq {N k : Nat} {ws : Words k} {f : Spec.Bits} (h : Rep N k ws f) (hfit : Spec.toNat N f < 2 ^ 64) :
+    toUnsigned N ws = .ok (Spec.toNat N f) :=
+  Members.toUnsigned_eq h hfit
 
-/-- the excluded class contains a failing input: for `Bits = 65` the member does not exist, while
-    `std::bitset<65>{5}.to_ullong()` is 5 -/
-theorem toUnsigned_counterexample : toUnsigned 65 (init 65 6) = Option.none ∧ Spec.toNat 65 (Spec.ofNat 5) = 5 :=
-  Members.toUnsigned_counterexample
+/-- non-vacuity: `bitset<65>{5}` (the witness of the former finding) has a value that fits -/
+example : Spec.toNat 65 (Spec.ofNat 5) < 2 ^ 64 := by decide
 
-/-- `to_string<Capacity>(zero, one)` for `Capacity >= Bits >= 1`: character 0 is bit `N-1`, the last
-    character is bit 0, no `push_back` beyond the capacity -/
-theorem toStr_eq {N k : Nat} {ws : Words k} {f : Spec.Bits} (hN : 0 < N) (h : Rep N k ws f) (zeroCh oneCh cap : Nat)
+/-- the other half: when the value does not fit (`std::bitset` throws `overflow_error`) the member's
+    contract `TETL_PRECONDITION(not test(i))`, `i >= 64`, fails; it never yields a truncated value
+    while contracts are checked -/
+theorem toUnsigned_overflow {N k : Nat} {ws : Words k} {f : Spec.Bits} (h : Rep N k ws f)
+    (hbig : 2 ^ 64 ≤ Spec.toNat N f) :
+    toUnsigned N ws = .error (.pre "to_ulong/to_ullong: no bit beyond the digits of the result type is set") :=
+  Members.toUnsigned_overflow h hbig
+
+/-- non-vacuity: bit 64 of a `bitset<65>` alone is worth 2^64 -/
+example : 2 ^ 64 ≤ Spec.toNat 65 (Spec.set1 Spec.zero 64 true) := by decide
+
+/-- `to_ulong()` / `to_ullong()` for `Bits <= 64`: no precondition (the value always fits) -/
+theorem toUnsigned_narrow {N k : Nat} {ws : Words k} {f : Spec.Bits} (h : Rep N k ws f) (h64 : N ≤ 64) :
+    toUnsigned N ws = .ok (Spec.toNat N f) :=
+  Members.toUnsigned_narrow h h64
+
+/-- `to_string<Capacity, CharT>(zero, one)` for `Capacity >= Bits` (`Bits = 0`: the empty string):
+    character 0 is bit `N-1`, the last character is bit 0, no `push_back` beyond the capacity -/
+theorem toStr_eq {N k : Nat} {ws : Words k} {f : Spec.Bits} (h : Rep N k ws f) (zeroCh oneCh cap : Nat)
     (hcap : N ≤ cap) : toStr N ws zeroCh oneCh cap = .ok (Spec.toStr N f zeroCh oneCh) :=
-  Members.toStr_eq hN h zeroCh oneCh cap hcap
+  Members.toStr_eq h zeroCh oneCh cap hcap
+
+/-- `to_string<Capacity, CharT>()` / `to_string<Capacity, CharT>(zero)`: the defaulted characters
+    `CharT('0')`, `CharT('1')` are those of `std::bitset::to_string` -/
+theorem toStrD_eq {N k : Nat} {ws : Words k} {f : Spec.Bits} (h : Rep N k ws f) (zeroCh oneCh : Option Nat)
+    (cap : Nat) (hcap : N ≤ cap) : toStrD N ws zeroCh oneCh cap = .ok (Spec.toStrD N f zeroCh oneCh) :=
+  Members.toStrD_eq h zeroCh oneCh cap hcap
 
 /-- non-vacuity of the history theorems: a valid history that crosses a word boundary with whole-set,
     single-bit, binary and constructor operations -/
-example : (∀ op, op ∈ [Op.setAll 0, .flip 0 64, .fromUll 1 5, .xorA 0 1, .fromStr 2 [49, 48] 0 NPOS 48 49] →
+example : (∀ op, op ∈ [Op.setAll 0, .flip 0 64, .fromUll 1 5, .xorA 0 1, .fromStr 2 [49, 48] 0 NPOS 48 49,
+    .setD 1 64, .fromStrD 3 [49, 48] Option.none Option.none Option.none Option.none,
+    .fromCstrD 3 [65, 66] (some 2) (some 65) (some 66)] →
     Op.valid 65 op = true) := by decide
+
+/-- non-vacuity at `N = 0`: `bitset<0>` is represented by the empty word array, and the whole-set,
+    binary and constructor operations are valid on it -/
+example : Rep 0 6 (init 0 6) Spec.zero ∧ (∀ op, op ∈ [Op.setAll 0, .flipAll 0, .not 1 0, .fromUll 2 5, .andA 0 2,
+    .fromStrD 3 [49, 48] Option.none Option.none Option.none Option.none] → Op.valid 0 op = true) :=
+  ⟨init_rep 0 6, by decide⟩
 
 /-- non-vacuity of the member theorems: the default-constructed 9-bit set over 64-bit words is represented -/
 example : Rep 9 6 (init 9 6) Spec.zero ∧ 9 ≤ 64 ∧ 0 < 9 := ⟨init_rep 9 6, by decide, by decide⟩
